@@ -1,8 +1,8 @@
 SPECIFICATION Spec
 CONSTANTS
-  Ms = {64, 128, 256}
-  RecThreshold = 32
-  Layout = "reim"
+  Ms = {1, 2, 4, 8, 16, 32, 64, 128, 256}
+  RecThreshold = 2048
+  Layout = "cplx"
   GenMode = FALSE
 INVARIANTS WellFormed OneMonomialPerInput IsEvalMap FullMixing
 CHECK_DEADLOCK FALSE
